@@ -10,7 +10,9 @@ TECHNIQUE = ("deterministic simulation harness (E-sess) used as a history "
              "aliasing fault)")
 RULE = ("case = history whose writes draw the metadata argument from {absent, "
         "{}, repeat last, one of 5 values, fresh equal copy, the same dict "
-        "object mutated in place between writes}; oracle: every example "
+        "object mutated in place between writes (top level, or only values "
+        "inside a nested dict / list)}, with rejected writes (caught by the "
+        "caller) in between in a third of the cases; oracle: every example "
         "written with non-empty M lies in a shard whose recorded metadata == "
         "snapshot(M), and shard_filter by M returns all of them and nothing "
         "written under a different non-empty M'. Non-trivial/distinct as for "
